@@ -190,6 +190,7 @@ fn main() {
         ("Frame", gen_frame),
         ("Topic", gen_topic),
         ("Server", gen_server),
+        ("Tls", gen_tls),
     ];
     let mut failed = false;
     for (name, f) in steps {
@@ -641,5 +642,58 @@ fn gen_server(repo: &Path, g: &mut Gen) -> R<()> {
     let body = { let b = &hs.block; quote::quote!(#b).to_string() };
     let _ = writeln!(s, "/-- does `handle_stream` compare the topic's pattern with the registration before acknowledging? -/\ndef checksPattern : Bool := {}", body.contains("is_pubsub ()") && body.contains("TOPIC_PATTERN_MISMATCH"));
     g.emit("Server", &[ps_rel, rr_rel, sv_rel, codes_rel], &s);
+    Ok(())
+}
+
+// --------------------------------------------------------------------------------------------- TLS
+
+fn fn_body_tokens(src: &Src, name: &str) -> R<String> {
+    fn walk<'a>(items: &'a [Item], name: &str) -> Option<&'a syn::ItemFn> {
+        for it in items {
+            match it {
+                Item::Fn(f) if f.sig.ident == name => return Some(f),
+                Item::Mod(m) => if let Some((_, items)) = &m.content { if let Some(f) = walk(items, name) { return Some(f); } },
+                _ => {}
+            }
+        }
+        None
+    }
+    let f = walk(&src.ast.items, name).ok_or_else(|| Shape(format!("{}: fn {name} not found", src.rel)))?;
+    let b = &f.block;
+    Ok(quote::quote!(#b).to_string())
+}
+
+fn gen_tls(repo: &Path, g: &mut Gen) -> R<()> {
+    let q_rel = "server/src/quic.rs";
+    let c_rel = "client/src/connection.rs";
+    let q = Src::load(repo, q_rel)?;
+    let c = Src::load(repo, c_rel)?;
+    let sc = fn_body_tokens(&q, "server_config")?;
+    // which verifier of client certificates does the server install?
+    let auth = if sc.contains("with_no_client_auth") { "none" }
+        else if !sc.contains("with_client_cert_verifier (client_cert_verifier)") { return shape(q_rel, "server_config: no with_client_cert_verifier(client_cert_verifier) call") }
+        else if sc.contains("AllowAnyAuthenticatedClient :: new (root_store)") { "requiredVerified" }
+        else if sc.contains("AllowAnyAnonymousOrAuthenticatedClient :: new (root_store)") { "optionalVerified" }
+        else if sc.contains("NoClientAuth") { "none" }
+        else { return shape(q_rel, "server_config: the client certificate verifier is not one the translator knows") };
+    let cc = fn_body_tokens(&c, "configure_client")?;
+    let verifies = cc.contains("with_root_certificates (options . root_store)") && !cc.contains("dangerous") && !cc.contains("with_custom_certificate_verifier");
+    let presents = cc.contains("with_client_auth_cert (options . certs , options . key)");
+    let ce = fn_body_tokens(&c, "connect_to_endpoint")?;
+    // endpoint.connect(addr, "<server name>")
+    let name = match ce.find(". connect (addr , \"") {
+        Some(i) => { let rest = &ce[i + ". connect (addr , \"".len()..]; match rest.find('"') { Some(j) => rest[..j].to_string(), None => return shape(c_rel, "connect_to_endpoint: server name literal not terminated") } }
+        None => return shape(c_rel, "connect_to_endpoint: no connect(addr, \"<name>\") call with a literal server name"),
+    };
+    let alpn_s = q.consts().get("ALPN_QUIC_HTTP").map(|e| quote::quote!(#e).to_string()).unwrap_or_default();
+    let alpn_c = c.consts().get("ALPN_QUIC_HTTP").map(|e| quote::quote!(#e).to_string()).unwrap_or_default();
+    let mut s = String::new();
+    let _ = writeln!(s, "inductive ClientAuth where\n  | requiredVerified   -- a client certificate is required and must chain to the configured roots\n  | optionalVerified   -- anonymous clients are let in\n  | none               -- no client authentication\n  deriving DecidableEq, Repr\n");
+    let _ = writeln!(s, "/-- from `server_config` in {q_rel} -/\ndef serverClientAuth : ClientAuth := .{auth}");
+    let _ = writeln!(s, "/-- from `configure_client` in {c_rel}: the server's chain is verified against the configured root store -/\ndef clientVerifiesServer : Bool := {verifies}");
+    let _ = writeln!(s, "def clientPresentsCertificate : Bool := {presents}");
+    let _ = writeln!(s, "/-- the name the client expects in the server's certificate (`endpoint.connect(addr, …)`) -/\ndef serverName : String := {name:?}");
+    let _ = writeln!(s, "def sameAlpn : Bool := {}", alpn_s == alpn_c && !alpn_s.is_empty());
+    g.emit("Tls", &[q_rel, c_rel], &s);
     Ok(())
 }
